@@ -126,6 +126,9 @@ def oracle(c, o):
     out = []
     if o.get('hang'):
         out.append(('%s:hang:%s' % (op, lib_frame(o.get('stack'))), 'decoder call did not return within %s' % CASE_TIMEOUT))
+    elif 'panic' in o and op == 'bgzfops':
+        out.append(('bgzfops:rd%d:%s:%s:panic:%s' % (c.get('rd', 1), 'cache' if c.get('cache') else 'nocache', 'goroutine' if o.get('goroutine') else 'NewReader', norm_msg(o['panic'])),
+                    'panic outside the calling goroutine / in NewReader: %s' % o['panic']))
     elif 'panic' in o:
         out.append(('%s:panic:%s:%s' % (op, lib_frame(o.get('stack')), norm_msg(o['panic'])), 'decoder panicked: %s' % o['panic']))
     elif o.get('oom'):
@@ -134,7 +137,13 @@ def oracle(c, o):
     elif o.get('crash') or o.get('garbled') or o.get('bad_case') or o.get('encode_error'):
         out.append(('%s:harness-crash' % op, 'harness process died: %s' % str(o)[:300]))
     for p in o.get('post', []):
-        if p['r'] != 'ok':
+        if p['r'] != 'ok' and op == 'bgzfops':
+            # one call of an operation history: the configuration is part of the signature
+            kind = 'hang' if p['r'] == 'hang' else 'panic:' + norm_msg(p['r'][7:])
+            call = (c.get('ops') or [[0]])[min(int(p['name'][4:]), len(c.get('ops') or [[0]]) - 1)]
+            out.append(('bgzfops:rd%d:%s:%s:%s' % (c.get('rd', 1), 'cache' if c.get('cache') else 'nocache', 'Seek' if call[0] == 0 else 'Read', kind),
+                        '%s (call %s of the history %s) on a stream with a damaged member: %s' % ('Seek' if call[0] == 0 else 'Read', p['name'][4:], c.get('ops'), p['r'])))
+        elif p['r'] != 'ok':
             kind = 'hang' if p['r'] == 'hang' else 'panic:' + norm_msg(p['r'][7:])
             out.append(('%s:post:%s:%s' % (op, p['name'], kind), '%s on the value returned by the decoder: %s' % (p['name'], p['r'])))
     return out
@@ -325,6 +334,10 @@ def gen_cases(rng, tier):
             x = (good if pos else b'') + hdr + g.join(g.bgzf_member_fields(9, b''))
             for rd in (1, 2):
                 add('bgzf', x, 'hdr:' + lab, rd=rd, m=pos)
+    # operation histories on streams with one damaged member (intact header): the damaged member is asked for twice
+    for stream, hist, lab in g.bgzf_ops_cases(rng, 70 * K):
+        for rd in (1, 2):
+            add('bgzfops', stream, lab, rd=rd, ops=hist, cache=rng.choice([0, 0, 1, 2, 3]))
     # indexes
     for op, mk in (('bai', g.bai_fields), ('tbi', g.tbi_fields), ('csi', g.csi_fields)):
         for _ in range(14 * K):
